@@ -5,6 +5,7 @@ import GoLevel.Driver.Bloom
 import GoLevel.Driver.LSM
 import GoLevel.Driver.Table
 import GoLevel.Driver.Conc
+import GoLevel.Driver.WriteProto
 /-! `gldriver`: reads one operation per line on stdin, answers one line per operation on stdout.
 The first token selects the layer.  Core-only (must link). -/
 open GoLevel GoLevel.Driver
@@ -13,6 +14,7 @@ structure DState where
   it : ItState := .none
   lsm : LsmState := {}
   conc : ConcState := {}
+  wp : WpState := initWp
 
 def dispatch (st : DState) (line : String) : DState × String :=
   let toks := (line.splitOn " ").filter (· ≠ "")
@@ -28,6 +30,10 @@ def dispatch (st : DState) (line : String) : DState × String :=
   | "conc" :: rest =>
     match handleConc st.conc rest with
     | some (c', out) => ({ st with conc := c' }, out)
+    | none => (st, "bad-op")
+  | "wp" :: rest =>
+    match handleWp st.wp rest with
+    | some (wp', out) => ({ st with wp := wp' }, out)
     | none => (st, "bad-op")
   | "it" :: rest =>
     match handleIt st.it rest with
